@@ -991,7 +991,7 @@ func main() {
 	out := flag.String("out", "", "cases directory")
 	seed := flag.Uint64("seed", 1, "seed")
 	tier := flag.String("tier", "quick", "tier")
-	stage := flag.String("stage", "history", "history|conc|indexcache|indexhist")
+	stage := flag.String("stage", "history", "history|conc|indexcache|indexhist|multiarch")
 	child := flag.String("child", "", "internal: call|conc")
 	_ = flag.String("replay", "", "unused: cases are regenerated from the seed")
 	flag.Parse()
@@ -1013,6 +1013,8 @@ func main() {
 		err = indexcacheStage(*out, *seed, *tier)
 	case "indexhist":
 		err = indexhistStage(*out, *seed, *tier)
+	case "multiarch":
+		err = multiarchStage(*out, *seed, *tier)
 	default:
 		err = fmt.Errorf("unknown stage %q", *stage)
 	}
